@@ -96,6 +96,12 @@ func (r *Run) Line(op, implOut string) {
 	if strings.ContainsAny(op, "\n\r") || strings.ContainsAny(implOut, "\n\r") {
 		fatal(fmt.Errorf("newline in protocol line: %q / %q", op, implOut))
 	}
+	if strings.HasSuffix(op, " ") {
+		// a history in which no operation took place (every random choice was inapplicable): nothing to compare;
+		// the line-splitting model driver would read the empty last field as a malformed line
+		r.Count("empty-history-skipped")
+		return
+	}
 	r.ops.WriteString(r.Prop + " " + op + "\n")
 	r.impl.WriteString(implOut + "\n")
 	r.meta.Lines++
